@@ -295,8 +295,8 @@ def extra_checks(tier, seed):
         return [('async_queues', False, detail,
                  dict(kind='counterexample', stream='asyncio classes, queued=True / queued=\'model\'', case=c, model_obs=m,
                       impl_obs=i, theorem='corr_C05 (Queue.drain = the asyncio classes\' queued processing)')),
-                hsm_queue_stream(tier, seed)]
-    return [('async_queues', True, detail, {}), hsm_queue_stream(tier, seed)]
+                hsm_queue_stream(tier, seed), hsm_reent_stream(tier, seed)]
+    return [('async_queues', True, detail, {}), hsm_queue_stream(tier, seed), hsm_reent_stream(tier, seed)]
 
 
 # ------------------------------------------------------------------ queued HIERARCHICAL machines
@@ -431,3 +431,18 @@ def hsm_queue_stream(tier, seed):
                 dict(kind='counterexample', stream='queued hierarchical machines', case=c, model_obs=m, impl_obs=i,
                      theorem='corr_C05 (Queue.drain over Hsm.trigger_event = the queued hierarchical classes)'))
     return ('hierarchical_queued_programs', True, detail, {})
+
+
+def hsm_reent_stream(tier, seed):
+    """the unqueued clause on hierarchical machines: a trigger issued from a callback is processed immediately and
+    completely inside that callback (HReent.v, the hierarchical engine over a callback runner that performs actions)"""
+    import hsm
+    n = 300 if tier == 'quick' else 8000
+    cases, bad, nested = hsm.reent_stream('C05r', seed, n, p_parallel=0.3)
+    detail = dict(cases=len(cases), disagreements=len(bad), nested_triggers_processed=nested)
+    if bad:
+        c, m, i = bad[0]
+        return ('hierarchical_unqueued_nested', False, detail,
+                dict(kind='counterexample', stream='unqueued hierarchical machine, callbacks that trigger events', case=c,
+                     model_obs=m, impl_obs=i, theorem='corr_C05 (HReent.hrtrigger = the unqueued hierarchical classes)'))
+    return ('hierarchical_unqueued_nested', True, detail, {})
